@@ -7,8 +7,7 @@
   What remains to be proved is that object ids keep designating the same object through every
   later write of the handle.
 -/
-import Proofs.ObjIndex
-import SodModel.Search
+import Proofs.SearchColl
 namespace Sod.Props
 open Sod
 
@@ -41,5 +40,16 @@ theorem C20_collect_keeps_entries (c : Coll) (s : Search) : (Coll.collect c s).2
 /-- the identifiers a collection resolves are exactly those of the owned entries, in order -/
 theorem C20_uuids_of_entries (s : Search) (l : Loaded) :
     s.uuids l = s.fields.map (fun e => (l.index.uuidOf e.2).getD 0) := rfl
+
+/-- THE SNAPSHOT THEOREM.  For ANY search value (evaluated at any earlier time, with any
+    writes since): every object Collect returns is the current content of the object designated
+    by one of the entries the search owns — never another object — and, the owned entries
+    having distinct ids, no object is returned twice.  An entry whose object was deleted
+    resolves to the empty identifier, which is never stored (`c.view 0 = none`): collection
+    stops there with an error. -/
+theorem C20_snapshot {c : Coll} {l : Loaded} (h : Inv' c l) (h0 : c.view 0 = none) (s : Search) :
+    (∀ o ∈ (c.collect s).snd.snd.fst, ∃ e ∈ s.fields, ∃ u, l.index.uuidOf e.snd = some u ∧ c.view u = some o ∧ o.uuid = u) ∧
+    ((s.fields.map (·.snd)).Nodup → ((c.collect s).snd.snd.fst.map (·.uuid)).Nodup) :=
+  collect_only_members h h0 s
 
 end Sod.Props
